@@ -296,7 +296,7 @@ func runC15(c *Ctx) {
 					w.line(c, fmt.Sprintf("pfreply %d %s", sid, hx(r.Bytes(1+r.Intn(30)))))
 				case j < 9:
 					c.Count("pf.remove")
-					w.line(c, fmt.Sprintf("pfremove %d", sid))
+					w.line(c, fmt.Sprintf("pfremove %d %d", sid, gen.Pick(r, []int{agent.SOCKET_TYPE_REVERSE_PORTFWD, agent.SOCKET_TYPE_CLIENT, agent.SOCKET_TYPE_CLIENT})))
 					opened[sid] = false
 				default:
 					c.Count("pf.read-unknown")
